@@ -101,6 +101,32 @@ def apply_mutant(source, m):
         return None, "scope %s not found" % m.func
     ftxt_e = _norm(m.find, "expr")
     ftxt_s = _norm(m.find, "stmt")
+    try:
+        fstmts = [ast.unparse(x) for x in ast.parse(_dedent(m.find)).body]
+    except SyntaxError:
+        fstmts = []
+    if len(fstmts) > 1:
+        # multi-statement anchor: consecutive statements of one block
+        blocks = []
+        for n in _walk_ordered(scope):
+            for fld in ("body", "orelse", "finalbody"):
+                blk = getattr(n, fld, None)
+                if isinstance(blk, list) and blk and isinstance(blk[0], ast.stmt):
+                    for i in range(len(blk) - len(fstmts) + 1):
+                        if [ast.unparse(x) for x in blk[i:i + len(fstmts)]] == fstmts:
+                            blocks.append((blk, i))
+        if len(blocks) <= m.nth:
+            return None, "multi-statement anchor `%s` not found (%d hits)" % (m.find.strip()[:60], len(blocks))
+        blk, i = blocks[m.nth]
+        new_nodes = ast.parse(_dedent(m.replace)).body if m.replace.strip() else []
+        blk[i:i + len(fstmts)] = new_nodes if (new_nodes or len(blk) > len(fstmts)) else [ast.Pass()]
+        ast.fix_missing_locations(tree)
+        new = ast.unparse(tree)
+        try:
+            compile(new, m.relpath, "exec")
+        except SyntaxError as e:
+            return None, "mutant does not compile: %s" % e
+        return new, None
     hits = []
     for n in _walk_ordered(scope):
         if isinstance(n, ast.stmt) and ftxt_s is not None and ast.unparse(n) == ftxt_s:
